@@ -8,7 +8,7 @@ import z3
 from . import common, lib, den, equation_contracts, sector_contracts  # noqa
 from . import C06 as _c06, C07 as _c07, C04 as _c04  # noqa
 
-P = Property('C01', 'proof',
+P = Property('C01', 'other',
              'Contracts on the real AST of the booking functions, over the abstract view Den(F) of the ledger equations: Sector.AddCashFlow adds exactly the '
              'signed term to F (C06); Model._GenerateRegisteredCashFlows books -x on the source and +x (same zone) or +x*cross rate (other zone, through '
              '_SendMoney / _ReceiveMoney whose FX positions absorb the difference) on the target (C07); Market._GenerateTermsLowLevel books the outflow '
